@@ -3,6 +3,7 @@ pub mod c01;
 pub mod c01real;
 pub mod c02;
 pub mod c06;
+pub mod c07;
 pub mod c08;
 pub mod c09;
 pub mod c10;
@@ -19,6 +20,7 @@ pub fn run(ctx: &Ctx) -> Option<(&'static str, &'static str)> {
         "C01" => Some(c01::run(ctx)),
         "C02" => Some(c02::run(ctx)),
         "C06" => Some(c06::run(ctx)),
+        "C07" => Some(c07::run(ctx)),
         "C08" => Some(c08::run(ctx)),
         "C09" => Some(c09::run(ctx)),
         "C10" => Some(c10::run(ctx)),
